@@ -1,4 +1,5 @@
 """Obligations, solver queries, job fan-out, replay, known findings, evidence."""
+import fnmatch
 import hashlib
 import json
 import multiprocessing as mp
@@ -76,7 +77,7 @@ class Query:
     log = []
 
     @staticmethod
-    def solve(conds, goal, timeout_s, extra=(), instantiate=True, want_model=True, pairwise=True, tactic=None):
+    def solve(conds, goal, timeout_s, extra=(), instantiate=True, want_model=True, pairwise=True, tactic=None, deep_gen=1):
         conds = [z3bool(c) for c in conds]
         g = z3bool(goal)
         s = z3.Solver() if tactic is None else z3.Then(*tactic).solver() if isinstance(tactic, (list, tuple)) else z3.Tactic(tactic).solver()
@@ -84,7 +85,7 @@ class Query:
         neg = z3.Not(g)
         terms = conds + [neg] + list(extra)
         if instantiate:
-            ax, inst = theory.axioms(terms, pairwise=pairwise)
+            ax, inst = theory.axioms(terms, pairwise=pairwise, deep_gen=deep_gen)
             s.add(ax)
             Query.axiom_names |= inst.names
         s.add(conds)
@@ -116,7 +117,7 @@ class Query:
         return r, dt
 
 
-def prove(oid, conds, goal, timeout_s, witness_vars=None, extra=(), instantiate=True, vacuity=True, replay=None, note=None, pairwise=True, tactic=None):
+def prove(oid, conds, goal, timeout_s, witness_vars=None, extra=(), instantiate=True, vacuity=True, replay=None, note=None, pairwise=True, tactic=None, deep_gen=1):
     """Discharge one obligation. Returns a result record.
 
     witness_vars: dict name -> Sym/z3 term whose model values make the witness.
@@ -124,7 +125,7 @@ def prove(oid, conds, goal, timeout_s, witness_vars=None, extra=(), instantiate=
             the concrete replay of that kind (see replay.py); or None.
     """
     try:
-        r, dt, m, s = Query.solve(conds, goal, timeout_s, extra=extra, instantiate=instantiate, pairwise=pairwise, tactic=tactic)
+        r, dt, m, s = Query.solve(conds, goal, timeout_s, extra=extra, instantiate=instantiate, pairwise=pairwise, tactic=tactic, deep_gen=deep_gen)
     except z3.Z3Exception as e:
         return rec(oid, "error", 0.0, detail=f"z3: {e}")
     out = rec(oid, r, dt)
@@ -279,7 +280,7 @@ def match_known(known, prop, oid):
     for k in known:
         if k.get("property") == prop and k.get("status") == "open":
             pat = k.get("obligation", "")
-            if pat and (oid == pat or (pat.endswith("*") and oid.startswith(pat[:-1]))):
+            if pat and (oid == pat or fnmatch.fnmatchcase(oid, pat)):
                 return k
     return None
 
